@@ -238,7 +238,7 @@ PROPS["C05"] = dict(
     trusted_base=TB_COMMON + ["encoding/json (Valid, Decoder.Token with UseNumber) and strconv as independent oracles inside the harness"],
     assumptions=["acceptance of a text = one item decoded and only whitespace left (stream decoder)", "valid JSON numbers outside int64/uint64/float64 range are exempt (unrep=1): the decoder reports an error for them"],
     suites=[
-        ("json-dec", dict(cmp=cmp_c05_dec, shrinker=shrink_hex_last_field, nontrivial=nt_c05, timeout=3600,
+        ("json-dec", dict(cmp=cmp_c05_dec, shrinker=shrink_hex_last_field, nontrivial=nt_c05, timeout=14400,
                           what="json.NewDecoder(r).Step vs JsonDec.jdec_run (items, tokens, consumed bytes via the verif hook) and vs encoding/json")),
     ],
 )
